@@ -60,6 +60,10 @@ def gen_cases(tier, seed):
     for si in range(len(SIGNS)):
         for ii in range(len(INTS)):
             yield {"kind": "parse", "sign": si, "int": ii}
+    # EVERY decimal with four fractional digits (and a few exponent spellings) under a handful of integer parts
+    for ip in ("0", "1", "5", "53", "536", "4095", "123456789012", "4503599627370495"):
+        for sg in ("", "-"):
+            yield {"kind": "decimals", "int": ip, "sign": sg, "digits": 4 if tier == "quick" else 5}
     for i in range(len(CNT)):
         yield {"kind": "render", "ci": i}
 
@@ -90,7 +94,9 @@ def order_case(case, res):
         # array form: p against the whole grid in one call
         for name, uf, op in OPS:
             want = np.array([op(pv, qv) for qv in allv])
-            for form, fn in (("operator", lambda: op(p, allp)), ("ufunc", lambda: uf(p, allp)), ("reversed", lambda: op(allp, p))):
+            buf1, buf2 = np.zeros(len(grid), bool), np.ones(len(grid), bool)
+            for form, fn in (("operator", lambda: op(p, allp)), ("ufunc", lambda: uf(p, allp)), ("reversed", lambda: op(allp, p)),
+                             ("ufunc out=", lambda: uf(p, allp, out=buf1)), ("ufunc out=(tuple)", lambda: uf(p, allp, out=(buf2,))[...])):
                 try:
                     got = np.asarray(fn())
                 except Exception as e:
@@ -344,6 +350,24 @@ def parse_case(case, res):
             res.skipped["string value beyond 2^52 cycles"] += 1
             continue
         res.state(("parse", s))
+        if len(good) % 7 == 0:
+            # interpreter-wide settings a user may have changed must not change what a string means
+            import decimal
+            try:
+                with decimal.localcontext() as ctx:
+                    ctx.prec = 6
+                    ctx.rounding = decimal.ROUND_UP
+                    with np.printoptions(precision=3, floatmode="fixed", legacy="1.25"):
+                        a_ = Phase.from_string(s)
+                b_ = Phase.from_string(s)
+                res.transitions += 2
+                if ex(a_) != ex(b_):
+                    res.violation("from_string|depends on the decimal context / print options", f"from_string({s!r}) = "
+                                  f"{float(ex(a_)[0])!r} under decimal precision 6, {float(ex(b_)[0])!r} normally", case, {"s": s})
+                else:
+                    res.hits["ambient decimal context and print options"] += 1
+            except Exception:
+                pass
         try:
             p = Phase.from_string(s)
         except Exception as e:
@@ -428,6 +452,22 @@ def render_case(case, res):
                         res.hits["round trip"] += 1
                 except Exception as e:
                     res.violation("roundtrip|raised", f"from_string({s!r}): {type(e).__name__}: {e} [{sub}]", case, sub)
+            import decimal as _dec
+            with _dec.localcontext() as _ctx:
+                _ctx.prec = 5
+                with np.printoptions(precision=2, floatmode="fixed"):
+                    try:
+                        amb = (str(p.to_string()), str(p.to_string(precision=9)), format(p, ".7f"))
+                    except Exception as e:
+                        amb = repr(e)
+            try:
+                norm = (str(p.to_string()), str(p.to_string(precision=9)), format(p, ".7f"))
+            except Exception as e:
+                norm = repr(e)
+            res.transitions += 2
+            if amb != norm:
+                res.violation("to_string|depends on the decimal context / print options", f"{amb!r} under decimal precision 5 and print "
+                              f"precision 2, {norm!r} normally [{sub}]", case, sub)
             # optional keywords that spell the default: the same text
             import pickle as _pickle
             base_default, base_p12 = str(p.to_string()), str(p.to_string(precision=12))
@@ -494,9 +534,39 @@ def render_case(case, res):
     res.sample({"count": n, "fractions": len(fr), "precisions": "0..12"}, 1)
 
 
+def decimals_case(case, res):
+    ip, sg, nd = case["int"], case["sign"], case["digits"]
+    bad = 0
+    for k in range(10 ** nd):
+        fr = f"{k:0{nd}d}"
+        for s, dec in ((f"{sg}{ip}.{fr}", f"{sg}{ip}.{fr}"), (f"{sg}{ip}{fr[:1]}.{fr[1:]}e-1", f"{sg}{ip}.{fr}"), (f"{sg}.{ip}{fr}e{len(ip)}", f"{sg}{ip}.{fr}")):
+            if s is not dec and k % 10:
+                continue                    # (exponent spellings for every tenth value)
+            want = F(dec)
+            res.transitions += 1
+            res.traces += 1
+            try:
+                p = Phase.from_string(s)
+            except Exception as e:
+                bad += 1
+                if bad <= 3:
+                    res.violation(f"from_string|raised|{type(e).__name__}", f"from_string({s!r}): {type(e).__name__}: {e}", case, {"s": s})
+                continue
+            if type(p) is not Phase or not normalised(p) or abs(ex(p)[0] - want) > TOL or bool(p.imaginary):
+                bad += 1
+                if bad <= 3:
+                    res.violation("from_string|value", f"from_string({s!r}) = {p!r}, decimal value {float(want)!r}", case, {"s": s})
+    res.states |= {hash((ip, sg, nd, i)) for i in range(0, 10 ** nd, 97)}
+    if not bad:
+        res.hits["every four-digit decimal"] += 1
+    else:
+        res.worst["strings failing in this case"] = max(res.worst.get("strings failing in this case", 0), bad)
+    res.sample({"decimals": f"{sg}{ip}.0000 .. {sg}{ip}.{'9' * nd}"}, 1)
+
+
 def check_case(case):
     res = report.Result()
-    {"order": order_case, "reduce": reduce_case, "reduce4": reduce4_case, "parse": parse_case, "render": render_case}[case["kind"]](case, res)
+    {"decimals": decimals_case, "order": order_case, "reduce": reduce_case, "reduce4": reduce4_case, "parse": parse_case, "render": render_case}[case["kind"]](case, res)
     return res
 
 
@@ -505,7 +575,7 @@ def main(argv=None):
         PID, gen_cases=gen_cases, check_case=check_case, describe=describe,
         required_hits=["near-tie below double resolution", "exact tie", "array with exact ties", "array with sub-ulp near-ties",
                        "2-D reshapes", "zero or missing integer part", "zero or missing fractional part", "D exponent",
-                       "round trip", "precision < 2 with small fraction", "use, update in place, sort again", "transposed view", "unit keyword spellings"],
+                       "round trip", "precision < 2 with small fraction", "use, update in place, sort again", "transposed view", "unit keyword spellings", "ambient decimal context and print options"],
         assumptions=["for exact ties any index/permutation that realises the exact ordering is accepted",
                      "the imaginary flag of an exactly zero value is unconstrained", "format(p, '.0f') (no decimals) falls to the "
                      "Quantity formatter and is not constrained"],
